@@ -257,6 +257,8 @@ _add(
     P("ipv4AddressSize", ["C16"], "`IPv4Address::address_size`", "Tins::IPv4Address::address_size"),
     P("ipv6AddressSize", ["C16", "C07"], "`IPv6Address::address_size`", "Tins::IPv6Address::address_size"),
     P("hwAddressSize", ["C16"], "`HWAddress<6>::address_size`", "Tins::HWAddress<6>::address_size"),
+    T("ipv6ToStringBufferSize", ["C16"], "`IPv6Address::to_string`: `char buffer[INET6_ADDRSTRLEN]` handed to `inet_ntop` with `sizeof(buffer)` (preprocessed)",
+      "src/ipv6_address.cpp", r"IPv6Address::to_string\s*\(", r"char\s+buffer\s*\[\s*(\d+)\s*\]", 1),
 )
 
 # --- capture (C17)
